@@ -52,15 +52,15 @@ CLAIMED = {
          "For generated valid packets of every version (templates pre-loaded, 0..2 valid packets in front), every interior cut point (V9: all but flowset boundaries) is executed: the result must be the preceding packets unchanged plus exactly one Error carrying the truncated bytes, and the caches must be unchanged (V9: changed only by the complete template flowsets before the cut).",
          "The untruncated buffer must itself parse cleanly (checked per case).", "DESIGN.md §4 C14"),
 
- "C15": ("property-based testing with a counting global allocator: size-parameterised families, metamorphic doubling relation, random hostile/conformant histories",
-         "Allocation traffic (bytes and calls on the calling thread) and deep result size are measured around every parse_bytes call: S1 alloc <= K0 + K1*|buf| + K2*result, S2 result <= K0 + K3*(|buf| + cached template wire size), S3 cost(2n) <= 2.5*cost(n) + K0 over doubling pairs of every family up to the 64 KiB limit (chains of minimal packets, minimal sets/flowsets under small and 1000-field templates, 1-byte records, n-field templates, failing-record retry, hostile count/length headers over short bodies), plus 2e5 random histories.",
-         "Constants K1..K3 are calibrated on the unchanged tree (4x the observed maximum, recorded in the source); cost is allocator traffic, never wall-clock.", "DESIGN.md §4 C15"),
+ "C15": ("property-based testing with a counting global allocator and callgrind instruction counts as cost instruments: size-parameterised families, metamorphic doubling and cache-size relations, random hostile/conformant histories",
+         "Allocation traffic (bytes and calls on the calling thread) and deep result size are measured around every parse_bytes call: S1 alloc <= K0 + K1*|buf| + K2*result, S2 result <= K0 + K3*(|buf| + cached template wire size), S3 cost(2n) <= 2.5*cost(n) + K0 over doubling pairs of every family up to the 64 KiB limit (chains of minimal packets, minimal sets/flowsets under small and 1000-field templates, 1-byte records, n-field templates, failing-record retry, hostile count/length headers over short bodies, packets against a cache of 6000 templates), plus 2e5 random histories. CPU work: instructions executed inside the measured call (valgrind --tool=callgrind on a helper binary): S5 instructions(n) <= 6*instructions(n/4) + 3e6 per family, S6 a 500-set packet against the 6000-template cache <= 2x the same packet against a 500-template cache + 5e5.",
+         "Constants K1..K3 are calibrated on the unchanged tree (2.8-4x the observed maximum, recorded in the source); cost is allocator traffic and instruction counts, never a clock; S5/S6 are skipped (and reported as skipped in the evidence) if valgrind is unavailable.", "DESIGN.md §4 C15"),
  "C16": ("property-based testing (proptest conformant + hostile histories) against an independent JSON reader and a harness-built expected tree",
          "For every result: streaming serialisation (to_string / to_writer) succeeds and agrees; the text parses with the harness' own RFC 8259 reader; serialising twice and serialising a second parser instance's results give identical text; an expected tree built from the Rust values (variant names via Debug, integers incl. u128 as decimal text, addresses via Display, strings verbatim, record keys in field order) equals the parsed JSON member by member.",
          "Non-finite floats serialise to null (serde_json's documented behaviour) and are accepted as faithful.", "DESIGN.md §4 C16"),
  "C17": ("cross-build differential property-based testing: the harness is built with and without parse_unknown_fields, both arms generate the same seeded cases",
          "A failing feature-off build is itself the violation. Known-only templates: per-case digests of results, re-export and common view must be identical in both builds, and both builds must equal the independent reference decode. Templates with an untyped field: the feature-off build must report no record for them and keep cache = model; the feature-on build must equal the reference decode.",
-         "Both arms use the same proptest version and seeds; untyped fields are forced into plain templates only (V9 options data is raw bytes in both configurations).", "DESIGN.md §4 C17"),
+         "Both arms use the same proptest version and seeds; untyped fields are forced into plain templates and IPFIX options templates (V9 options data is raw bytes in both configurations).", "DESIGN.md §4 C17"),
 }
 NOT_YET = {}
 
